@@ -13,18 +13,21 @@ use crate::model::*;
 use crate::run::*;
 use nv_engine::{CaseCtx, Fail};
 use relational_engine::RelationalError;
-use std::collections::BTreeMap;
 use std::time::Duration;
 
 pub fn exp_check(case: &ExpCase, ctx: &mut CaseCtx, timeout_secs: u64, sleep_ms: u64, first_attempt: bool) -> Result<(), Fail> {
     let mut run = Run::new(timeout_secs, false);
-    run.setup(&case.idx, &case.seed, ctx)?;
+    // both tables get the same indexes and the same rows (hence the same row ids)
+    run.setup(&[case.idx, case.idx], &[case.seed.clone(), case.seed.clone()], ctx)?;
     let eng_t = run.eng.begin_transaction();
-    run.m.txs.push(MTx { eid: eng_t, state: TxState::Live, before: BTreeMap::new(), kinds: 0, one_kind: [(false, false); NCOLS] });
+    run.m.txs.push(MTx::new(eng_t));
+    const TABLE: &str = TABLES[0];
+    let ut = usize::from(case.u_other_table);
+    let utable = TABLES[ut];
 
     // first transaction: takes row locks on everything it matches
-    let ids_t = run.m.matching(&case.t_cond);
-    let cond_t = to_condition(&run.m, &case.t_cond);
+    let ids_t = run.m.tabs[0].matching(&case.t_cond);
+    let cond_t = to_condition(&run.m.tabs[0], &case.t_cond);
     let r = if case.t_delete {
         run.eng.tx_delete(eng_t, TABLE, cond_t.clone())
     } else {
@@ -37,15 +40,15 @@ pub fn exp_check(case: &ExpCase, ctx: &mut CaseCtx, timeout_secs: u64, sleep_ms:
         },
     }
     if case.t_delete {
-        run.m.apply_delete(Some(0), &ids_t);
+        run.m.apply_delete(Some(0), 0, &ids_t);
     } else {
-        run.m.apply_update(Some(0), &ids_t, &norm_sets(&case.t_sets));
+        run.m.apply_update(Some(0), 0, &ids_t, &norm_sets(&case.t_sets));
     }
 
     // second statement (another transaction or a non-transactional call), on the in-place image
-    let ids_u = run.m.matching(&case.u_cond);
-    let (bh, brows) = run.m.blockers(None, &ids_u);
-    let cond_u = to_condition(&run.m, &case.u_cond);
+    let ids_u = run.m.tabs[ut].matching(&case.u_cond);
+    let (bh, brows) = run.m.tabs[ut].blockers(None, &ids_u);
+    let cond_u = to_condition(&run.m.tabs[ut], &case.u_cond);
     let eng_u = if case.u_plain { None } else { Some(run.eng.begin_transaction()) };
     let kind = match (case.u_plain, case.u_delete) {
         (false, false) => "tx_update",
@@ -55,14 +58,20 @@ pub fn exp_check(case: &ExpCase, ctx: &mut CaseCtx, timeout_secs: u64, sleep_ms:
     };
     let issue = |run: &Run| -> Result<usize, RelationalError> {
         match (eng_u, case.u_delete) {
-            (Some(u), false) => run.eng.tx_update(u, TABLE, cond_u.clone(), sets_map(&case.u_sets)),
-            (Some(u), true) => run.eng.tx_delete(u, TABLE, cond_u.clone()),
-            (None, false) => run.eng.update(TABLE, cond_u.clone(), sets_map(&case.u_sets)),
-            (None, true) => run.eng.delete_rows(TABLE, cond_u.clone()),
+            (Some(u), false) => run.eng.tx_update(u, utable, cond_u.clone(), sets_map(&case.u_sets)),
+            (Some(u), true) => run.eng.tx_delete(u, utable, cond_u.clone()),
+            (None, false) => run.eng.update(utable, cond_u.clone(), sets_map(&case.u_sets)),
+            (None, true) => run.eng.delete_rows(utable, cond_u.clone()),
         }
     };
     ctx.label(format!("second:{kind}"));
-    ctx.label(if bh.is_empty() { "overlap:none" } else { "overlap:yes" });
+    ctx.label(if ut == 1 {
+        "overlap:none(other-table-same-row-ids)"
+    } else if bh.is_empty() {
+        "overlap:none"
+    } else {
+        "overlap:yes"
+    });
 
     let mut done = false;
     if bh.is_empty() || first_attempt {
@@ -95,7 +104,7 @@ pub fn exp_check(case: &ExpCase, ctx: &mut CaseCtx, timeout_secs: u64, sleep_ms:
     if !done {
         std::thread::sleep(Duration::from_millis(sleep_ms));
         let tm = run.eng.tx_manager();
-        for id in run.m.locks.keys() {
+        for id in run.m.tabs[0].locks.keys() {
             if tm.is_row_locked(TABLE, *id) || tm.row_lock_holder(TABLE, *id).is_some() {
                 ctx.fail(
                     "expiry:still-locked-after-timeout",
@@ -122,16 +131,18 @@ pub fn exp_check(case: &ExpCase, ctx: &mut CaseCtx, timeout_secs: u64, sleep_ms:
 
     // the table now carries both transactions' effects in place
     if case.u_delete {
-        run.m.apply_delete(None, &ids_u);
+        run.m.apply_delete(None, ut, &ids_u);
     } else {
-        run.m.apply_update(None, &ids_u, &norm_sets(&case.u_sets));
+        run.m.apply_update(None, ut, &ids_u, &norm_sets(&case.u_sets));
     }
-    let rows = run.eng.select(TABLE, relational_engine::Condition::True).map_err(|e| Fail::new("expiry:scan-err", format!("{e:?}")))?;
-    let mut got: Vec<u64> = rows.iter().map(|r| r.id).collect();
-    got.sort_unstable();
-    let want: Vec<u64> = run.m.alive_rows().into_iter().map(|(id, _)| id).collect();
-    if got != want {
-        ctx.fail("expiry:scan-after-takeover", format!("rows after both statements: {got:?}, expected {want:?}"))?;
+    for t in 0..NTABS {
+        let rows = run.eng.select(TABLES[t], relational_engine::Condition::True).map_err(|e| Fail::new("expiry:scan-err", format!("{e:?}")))?;
+        let mut got: Vec<u64> = rows.iter().map(|r| r.id).collect();
+        got.sort_unstable();
+        let want = run.m.tabs[t].matching(&Cond::True);
+        if got != want {
+            ctx.fail("expiry:scan-after-takeover", format!("rows of {} after both statements: {got:?}, expected {want:?}", TABLES[t]))?;
+        }
     }
 
     // both finish normally (an expired lock does not end its transaction); nothing may be left
